@@ -364,6 +364,38 @@ pub fn ascii_words() -> BoxedStrategy<String> {
         .boxed()
 }
 
+/// text over ALL of ASCII (0x00..0x7F, weighted to printable characters and to the numeric neighbours of U+0020: U+001F, U+0021), words of
+/// 1..24 characters separated by gaps of 1, 2..3 or 4..40 spaces (one gap in six contains a non-ASCII space), up to ~600 bytes
+pub fn ascii_text() -> BoxedStrategy<String> {
+    let ch = prop_oneof![10 => 0x21u8..0x7f, 3 => Just(b'!'), 1 => Just(0x1fu8), 1 => Just(0x7fu8), 1 => 0u8..0x20, 2 => Just(b'a')];
+    let word = vec(ch, 1..24);
+    let gap = prop_oneof![5 => 1usize..2, 3 => 2usize..4, 3 => 4usize..41];
+    let kind = prop_oneof![10 => Just(0u8), 1 => Just(1u8), 1 => Just(2u8)];
+    (vec((word, gap, kind), 1..10), prop_oneof![3 => Just(0usize), 1 => 1usize..3, 1 => 3usize..30], any::<bool>())
+        .prop_map(|(words, lead, trail)| {
+            let mut s = " ".repeat(lead);
+            for (i, (w, gap, kind)) in words.iter().enumerate() {
+                s.extend(w.iter().map(|b| *b as char));
+                if i + 1 < words.len() || trail {
+                    match kind {
+                        0 => s.push_str(&" ".repeat(*gap)),
+                        1 => {
+                            s.push_str(&" ".repeat(*gap / 2));
+                            s.push('\u{3000}');
+                            s.push_str(&" ".repeat(*gap - *gap / 2 - (*gap).min(1)));
+                        }
+                        _ => {
+                            s.push('\u{a0}');
+                            s.push_str(&" ".repeat(gap.saturating_sub(1)));
+                        }
+                    }
+                }
+            }
+            s
+        })
+        .boxed()
+}
+
 /// Respell a generated string: sometimes fully decomposed (NFD / NFKD), sometimes one character decomposed,
 /// sometimes a composing pair of two STARTERS (two-part vowel signs, Hangul jamo) inserted
 pub fn respelled(base: BoxedStrategy<String>) -> BoxedStrategy<String> {
